@@ -1145,3 +1145,113 @@ func isNamedResult(p *core.Program, obj types.Object) bool {
 	}
 	return false
 }
+
+// tailInlined: fi with every `return helper(args)` whose callee is a function of the same package
+// (and whose arguments are plain identifiers or constants) replaced by the helper's body, parameters
+// and receiver replaced by the arguments — a tail call hands back exactly what the helper returns, so
+// the merged body behaves as the original. Rules written over one function's body (a dispatcher split
+// into `return in.readConn(sz)` / `return in.readBuffered(sz)`) read the merged body. Returns fi itself
+// when there is nothing to merge.
+func tailInlined(p *core.Program, fi *core.FuncInfo, depth int) *core.FuncInfo {
+	if fi == nil || fi.Decl.Body == nil || depth > 2 {
+		return fi
+	}
+	info := fi.Pkg.TypesInfo
+	changed := false
+	var block func(b *ast.BlockStmt) *ast.BlockStmt
+	var stmt func(s ast.Stmt) ast.Stmt
+	stmt = func(s ast.Stmt) ast.Stmt {
+		switch v := s.(type) {
+		case *ast.BlockStmt:
+			return block(v)
+		case *ast.IfStmt:
+			c := *v
+			c.Body = block(v.Body)
+			if v.Else != nil {
+				c.Else = stmt(v.Else)
+			}
+			return &c
+		case *ast.ReturnStmt:
+			if len(v.Results) != 1 {
+				return s
+			}
+			call, ok := ast.Unparen(v.Results[0]).(*ast.CallExpr)
+			if !ok {
+				return s
+			}
+			fn := calleeFunc(info, call)
+			cf := p.FuncOf(fn)
+			if cf == nil || cf.Decl.Body == nil || cf.Pkg != fi.Pkg || cf == fi {
+				return s
+			}
+			repl := map[types.Object]ast.Expr{}
+			i := 0
+			for _, f := range cf.Decl.Type.Params.List {
+				for _, n := range f.Names {
+					if i >= len(call.Args) {
+						return s
+					}
+					a := ast.Unparen(call.Args[i])
+					if _, isId := a.(*ast.Ident); !isId {
+						if tv, ok := info.Types[a]; !ok || tv.Value == nil {
+							return s
+						}
+					}
+					if o := cf.Pkg.TypesInfo.Defs[n]; o != nil {
+						repl[o] = a
+					}
+					i++
+				}
+			}
+			if cf.Decl.Recv != nil && len(cf.Decl.Recv.List) > 0 && len(cf.Decl.Recv.List[0].Names) > 0 {
+				sel, ok := ast.Unparen(call.Fun).(*ast.SelectorExpr)
+				if !ok {
+					return s
+				}
+				rx, ok := ast.Unparen(sel.X).(*ast.Ident)
+				if !ok {
+					return s
+				}
+				if o := cf.Pkg.TypesInfo.Defs[cf.Decl.Recv.List[0].Names[0]]; o != nil {
+					repl[o] = rx
+				}
+			}
+			inner := tailInlined(p, cf, depth+1)
+			body, _ := paths.Subst(cf.Pkg.TypesInfo, inner.Decl.Body, repl).(*ast.BlockStmt)
+			if body == nil {
+				return s
+			}
+			changed = true
+			return body
+		}
+		return s
+	}
+	block = func(b *ast.BlockStmt) *ast.BlockStmt {
+		if b == nil {
+			return nil
+		}
+		nb := &ast.BlockStmt{Lbrace: b.Lbrace, Rbrace: b.Rbrace}
+		for _, s := range b.List {
+			ns := stmt(s)
+			// a merged helper body at the end of a block is spliced in, so that what follows a guard
+			// (`if tcp != nil { return readConn(sz) }; return readBuffered(sz)`) stays one statement list
+			if bs, ok := ns.(*ast.BlockStmt); ok && ns != s {
+				if _, wasRet := s.(*ast.ReturnStmt); wasRet {
+					nb.List = append(nb.List, bs.List...)
+					continue
+				}
+			}
+			nb.List = append(nb.List, ns)
+		}
+		return nb
+	}
+	nb := block(fi.Decl.Body)
+	if !changed {
+		return fi
+	}
+	d := *fi.Decl
+	d.Body = nb
+	c := *fi
+	c.Decl = &d
+	return &c
+}
